@@ -65,6 +65,7 @@ var nsnameLists = map[string][]nsname.NSName{}
 
 var sharedLS = &metav1.LabelSelector{}
 var selBuilds int
+var emptyBuilds int
 
 // labelIs(v) accepts the objects whose label l is v; (fn 10+k) is labelIs(k).
 func labelIs(v string) func(metav1.Object) bool {
@@ -206,6 +207,13 @@ func (t Term) Build() filter.Filter {
 		kids := make([]filter.Filter, 0, len(t.Kids))
 		for _, k := range t.Kids {
 			kids = append(kids, k.Build())
+		}
+		if len(kids) == 0 {
+			// no children: called without arguments (a nil slice) or with an empty list (a non-nil one), in turn
+			emptyBuilds++
+			if emptyBuilds%2 == 0 {
+				kids = nil
+			}
 		}
 		if t.Op == "and" {
 			return filter.And(kids...)
